@@ -3,7 +3,7 @@
     Pinned by props/C10.statements. *)
 From Coq Require Export ZArith List Bool String Permutation.
 From GV Require Export Query.PatSpec Query.RunPat.
-From GV Require Export Query.ProofsPhys Query.ProofsPhysR Query.ProofsPhysC.
+From GV Require Export Query.ProofsPhys Query.ProofsPhysR Query.ProofsPhysC Query.ProofsEnd.
 Open Scope Z_scope.
 
 Theorem physical_off_is_logical : forall st p, run opts_off st p = sem_ops st p.
@@ -60,6 +60,15 @@ Theorem paths_irrelevant : forall o o' st st' p t,
   sem_ops st p = Ok t -> run o st p = Ok t /\ run o' st' p = Ok t.
 Proof. exact paths_irrelevant_l. Qed.
 Print Assumptions paths_irrelevant.
+
+Theorem engine_plain_answer : forall o st q,
+  store_ok st -> single_hops (q_pat q) = true -> single_labels (q_pat q) = true -> pat_fresh (q_pat q) = true ->
+  no_type_case st (q_pat q) = true -> directed (q_pat q) = true ->
+  plain_core q = true -> q_order q = nil ->
+  phys_ok st (cypher_plan_of q) ->
+  exists t, run o st (cypher_plan_of q) = Ok t /\ Ok (out_rows t) = answer st q.
+Proof. exact engine_plain_answer_l. Qed.
+Print Assumptions engine_plain_answer.
 
 Theorem cache_transparent : forall (text : Type) (text_eqb : text -> text -> bool),
   (forall a b : text, text_eqb a b = true <-> a = b) ->
@@ -140,3 +149,25 @@ Example nv_paths_taken :
   fact_chains nv_p <> [] /\
   run (opts_engine true) nv_st nv_p = Ok (mkT ["a"; "c"] [[CNode 0; CNode 2]; [CNode 0; CNode 2]]).
 Proof. vm_compute. repeat split; discriminate. Qed.
+
+(** ... and the hypotheses of the composed theorem hold for a two-hop core query with WHERE on that store *)
+Definition nv_q : query :=
+  mkQ (mkPat (mkNP "a" ["A"]) [mkHop Out (Some "R") (Some "r") HOne (mkNP "b" []); mkHop Out None (Some "s") HOne (mkNP "c" [])])
+      (Some (ECmp OEq (EProp "a" "x") (ELit (VInt 1)))) (RPlain [EVar "a"; EProp "c" "x"] false) [] None None.
+Example nv_engine_answer :
+  phys_ok nv_st (cypher_plan_of nv_q) /\ plain_core nv_q = true /\ pat_fresh (q_pat nv_q) = true /\
+  answer nv_st nv_q = Ok [[VInt 0; VInt 2]; [VInt 0; VInt 2]].
+Proof.
+  split; [|vm_compute; repeat split].
+  unfold phys_ok. repeat split; try reflexivity.
+  - cbn. repeat constructor; cbn; intuition discriminate.
+  - cbn. repeat constructor; cbn; intuition discriminate.
+  - intros n k v Hn Hkv. cbn in Hn. destruct Hn as [<-|[<-|[<-|[]]]]; cbn in Hkv; destruct Hkv as [Hkv|[]]; inversion Hkv; reflexivity.
+  - cbn in H. destruct (String.eqb k "x"); [|discriminate H]. inversion H; subst. repeat constructor.
+  - intros n v Hn Hl. cbn in H. destruct (String.eqb k "x") eqn:E; [|discriminate H]. inversion H; subst. apply String.eqb_eq in E. subst k.
+    cbn in Hn. destruct Hn as [<-|[<-|[<-|[]]]]; cbn in Hl; inversion Hl; subst; cbn; auto.
+  - cbn. repeat constructor; cbn; intuition discriminate.
+  - intros e i H. cbn in H. repeat (destruct H as [H|H]; [try discriminate H|]); try contradiction.
+    inversion H; subst. cbn. intuition discriminate.
+  - intros gb aggs i H. cbn in H. repeat (destruct H as [H|H]; [discriminate H|]). contradiction.
+Qed.
